@@ -15,6 +15,7 @@ PATCH="$SRC/patch.diff"; [ -f "$SRC/patch-ported-to-HEAD.diff" ] && PATCH="$SRC/
 git -C /repo worktree add -q "$WT" "$BASEREF" || exit 2
 if ! git -C "$WT" apply --check "$PATCH" 2>/dev/null && [ -n "${SEED_FALLBACK:-}" ]; then
   git -C /repo worktree remove --force "$WT"; BASEREF="$SEED_FALLBACK"; git -C /repo worktree add -q "$WT" "$BASEREF" || exit 2
+  echo "FALLBACK-BASE $BASEREF (patch does not apply to HEAD)"
 fi
 BASE=$(git -C "$WT" rev-parse --short HEAD)
 DEMOS=$(ls "$SRC" | grep -v patch.diff | grep -v README | grep '\.go$')
